@@ -5,6 +5,7 @@ import (
 	"strings"
 
 	"github.com/goatcms/goatcore/varutil"
+	"github.com/goatcms/goatcore/varutil/verifhook"
 )
 
 // mkdirAll crete directories recursive
@@ -20,6 +21,7 @@ func mkdirAll(d *Dir, subPath string, filemode os.FileMode) (dir *Dir, err error
 
 func mkdirAllNodes(d *Dir, nodesPath []string, filemode os.FileMode) (dir *Dir, err error) {
 	for _, nodeName := range nodesPath {
+		verifhook.Yield("memfs.mkdir.gap")
 		if d, err = d.mkdir(nodeName, filemode); err != nil {
 			return nil, err
 		}
